@@ -52,31 +52,31 @@ type c12Case struct {
 	ExtB  []int `json:"ext_b"`
 	ExtQ  []int `json:"ext_q"`
 	// peer / pair
-	Client   bool       `json:"client"`
-	MT       int        `json:"mt"`
-	Unix     bool       `json:"unix"`
-	Script   []c12Frame `json:"script"`
-	Close    bool       `json:"close"`
-	FileQ    bool       `json:"file_q"` // the queue / buffer path exists for the real server
-	FileB    bool       `json:"file_b"`
-	Frames   []c12Frame `json:"frames"` // what the real end wrote
-	Class    int        `json:"class"`  // 0 ok, 1 timeout, 2 error, 3 panic
-	ObsVer   int        `json:"obs_ver"`
-	Mapped   bool       `json:"mapped"`
-	Sched    int        `json:"sched"`
-	CClass   int        `json:"c_class"`
-	SClass   int        `json:"s_class"`
-	CVer     int        `json:"c_ver"`
-	SVer     int        `json:"s_ver"`
-	Same     bool       `json:"same"`
-	ElapsedC int64      `json:"elapsed_c_ms"`
-	ElapsedS int64      `json:"elapsed_s_ms"`
-	Timeout  int64      `json:"timeout_ms"`
-	Err      string     `json:"err"`
-	Residue  []string   `json:"residue"`
+	Client   bool           `json:"client"`
+	MT       int            `json:"mt"`
+	Unix     bool           `json:"unix"`
+	Script   []c12Frame     `json:"script"`
+	Close    bool           `json:"close"`
+	FileQ    bool           `json:"file_q"` // the queue / buffer path exists for the real server
+	FileB    bool           `json:"file_b"`
+	Frames   []c12Frame     `json:"frames"` // what the real end wrote
+	Class    int            `json:"class"`  // 0 ok, 1 timeout, 2 error, 3 panic
+	ObsVer   int            `json:"obs_ver"`
+	Mapped   bool           `json:"mapped"`
+	Sched    int            `json:"sched"`
+	CClass   int            `json:"c_class"`
+	SClass   int            `json:"s_class"`
+	CVer     int            `json:"c_ver"`
+	SVer     int            `json:"s_ver"`
+	Same     bool           `json:"same"`
+	ElapsedC int64          `json:"elapsed_c_ms"`
+	ElapsedS int64          `json:"elapsed_s_ms"`
+	Timeout  int64          `json:"timeout_ms"`
+	Err      string         `json:"err"`
+	Residue  []string       `json:"residue"`
 	Census   map[string]int `json:"census,omitempty"`
-	Oracle   []string   `json:"oracle"`
-	Feat     []string   `json:"feat"`
+	Oracle   []string       `json:"oracle"`
+	Feat     []string       `json:"feat"`
 }
 
 func c12Ints(b []byte) []int {
@@ -327,6 +327,21 @@ func c12Residue(id int, inode string) []string {
 	return r
 }
 
+// signature of one residue entry; the dup'ed socket descriptor is judged by the census scenarios only
+func c12ResidueSig(r string, server bool) string {
+	switch {
+	case strings.HasPrefix(r, "maps:"):
+		return "C12:error-path-leaves-mapping"
+	case strings.HasPrefix(r, "files:"):
+		return "C12:error-path-leaves-file"
+	case strings.HasPrefix(r, "memfd-fds:") && server:
+		return "C12:error-path-leaves-received-descriptor"
+	case strings.HasPrefix(r, "memfd-fds:"):
+		return "C12:error-path-leaves-memfd-descriptor"
+	}
+	return ""
+}
+
 func c12CloseSession(s *Session) {
 	if s != nil {
 		s.Close()
@@ -440,6 +455,7 @@ type c12PeerSpec struct {
 	createFile  bool
 	createMemfd bool
 	removeB     bool // remove the buffer file again before the server runs (it must fail to map)
+	wantVer     int  // > 0: the property demands success with this (lower common) version
 }
 
 func c12PeerSpecs() []c12PeerSpec {
@@ -458,8 +474,8 @@ func c12PeerSpecs() []c12PeerSpec {
 		{name: "c-stall-after-version", client: true, mt: MemMapTypeMemFd, script: S(exch(3))},
 		{name: "c-close-after-version", client: true, mt: MemMapTypeMemFd, script: S(exch(3)), close: true},
 		{name: "c-stall-after-ackready", client: true, mt: MemMapTypeMemFd, script: S(exch(3), h(3, typeAckReadyRecvFD))},
-		{name: "c-complete", client: true, mt: MemMapTypeMemFd, script: S(exch(3), h(3, typeAckReadyRecvFD), h(3, typeAckShareMemory))},
-		{name: "c-server-answers-v2", client: true, mt: MemMapTypeMemFd, script: S(exch(2))},
+		{name: "c-complete", wantVer: 3, client: true, mt: MemMapTypeMemFd, script: S(exch(3), h(3, typeAckReadyRecvFD), h(3, typeAckShareMemory))},
+		{name: "c-server-answers-v2", wantVer: 2, client: true, mt: MemMapTypeMemFd, script: S(exch(2))},
 		{name: "c-server-answers-v1", client: true, mt: MemMapTypeMemFd, script: S(exch(1))},
 		{name: "c-server-answers-v9", client: true, mt: MemMapTypeMemFd, script: S(exch(9))},
 		{name: "c-bad-magic", client: true, mt: MemMapTypeMemFd, script: S(c12Send{data: bad})},
@@ -468,7 +484,7 @@ func c12PeerSpecs() []c12PeerSpec {
 		{name: "c-unexpected-polling", client: true, mt: MemMapTypeMemFd, script: S(h(3, typePolling))},
 		{name: "c-ackshare-instead-of-ackready", client: true, mt: MemMapTypeMemFd, script: S(exch(3), h(3, typeAckShareMemory))},
 		{name: "c-ackready-twice", client: true, mt: MemMapTypeMemFd, script: S(exch(3), h(3, typeAckReadyRecvFD), h(3, typeAckReadyRecvFD))},
-		{name: "c-file-silent-server", client: true, mt: MemMapTypeDevShmFile, script: none},
+		{name: "c-file-silent-server", wantVer: 2, client: true, mt: MemMapTypeDevShmFile, script: none},
 		// real server against a fake client
 		{name: "s-silent", script: none},
 		{name: "s-close-at-once", script: none, close: true},
@@ -480,7 +496,7 @@ func c12PeerSpecs() []c12PeerSpec {
 		{name: "s-close-before-fds", createMemfd: true, close: true, script: func(q, b string, bf, qf int) []c12Send {
 			return []c12Send{exch(3), {data: c12Meta(3, typeShareMemoryByMemfd, q, b)}}
 		}},
-		{name: "s-memfd-complete", createMemfd: true, script: func(q, b string, bf, qf int) []c12Send {
+		{name: "s-memfd-complete", wantVer: 3, createMemfd: true, script: func(q, b string, bf, qf int) []c12Send {
 			return []c12Send{exch(3), {data: c12Meta(3, typeShareMemoryByMemfd, q, b)}, {fds: []int{bf, qf}}}
 		}},
 		{name: "s-bytes-instead-of-fds", createMemfd: true, script: func(q, b string, bf, qf int) []c12Send {
@@ -489,7 +505,7 @@ func c12PeerSpecs() []c12PeerSpec {
 		{name: "s-one-fd-only", createMemfd: true, script: func(q, b string, bf, qf int) []c12Send {
 			return []c12Send{exch(3), {data: c12Meta(3, typeShareMemoryByMemfd, q, b)}, {fds: []int{bf}}}
 		}},
-		{name: "s-v2-file-complete", createFile: true, script: func(q, b string, bf, qf int) []c12Send {
+		{name: "s-v2-file-complete", wantVer: 2, createFile: true, script: func(q, b string, bf, qf int) []c12Send {
 			return []c12Send{{data: c12Meta(2, typeShareMemoryByFilePath, q, b)}}
 		}},
 		{name: "s-v2-file-missing", script: func(q, b string, bf, qf int) []c12Send {
@@ -498,7 +514,7 @@ func c12PeerSpecs() []c12PeerSpec {
 		{name: "s-v2-buffer-missing", createFile: true, removeB: true, script: func(q, b string, bf, qf int) []c12Send {
 			return []c12Send{{data: c12Meta(2, typeShareMemoryByFilePath, q, b)}}
 		}},
-		{name: "s-v3-file-complete", createFile: true, script: func(q, b string, bf, qf int) []c12Send {
+		{name: "s-v3-file-complete", wantVer: 3, createFile: true, script: func(q, b string, bf, qf int) []c12Send {
 			return []c12Send{exch(3), {data: c12Meta(3, typeShareMemoryByFilePath, q, b)}}
 		}},
 		{name: "s-version-4", script: S(exch(4))},
@@ -630,6 +646,10 @@ func c12RunPeer(id int, sp c12PeerSpec) c12Case {
 			}
 		}
 	}
+	// oracle: where the peer's script is a complete, valid exchange the end must succeed with the lower common version
+	if sp.wantVer > 0 && (err != nil || c.ObsVer != sp.wantVer) {
+		c.Oracle = append(c.Oracle, "C12:version-not-the-lower-common-one")
+	}
 	// oracle: an error comes no later than the timeout (generous slack)
 	if err != nil && el > c12InitTimeout+c12Slack {
 		c.Oracle = append(c.Oracle, "C12:error-later-than-initialize-timeout")
@@ -654,13 +674,8 @@ func c12RunPeer(id int, sp c12PeerSpec) c12Case {
 		time.Sleep(20 * time.Millisecond)
 		c.Residue = c12Residue(id, inode)
 		for _, r := range c.Residue {
-			switch {
-			case strings.HasPrefix(r, "maps:"):
-				c.Oracle = append(c.Oracle, "C12:error-path-leaves-mapping")
-			case strings.HasPrefix(r, "files:"):
-				c.Oracle = append(c.Oracle, "C12:error-path-leaves-file")
-			case strings.HasPrefix(r, "memfd-fds:"):
-				c.Oracle = append(c.Oracle, "C12:error-path-leaves-received-descriptor")
+			if sig := c12ResidueSig(r, !sp.client); sig != "" {
+				c.Oracle = append(c.Oracle, sig)
 			}
 		}
 	}
@@ -816,8 +831,8 @@ func c12RunPair(id int, sp c12PairSpec) c12Case {
 		runtime.GC()
 		c.Residue = c12Residue(id, sinode)
 		for _, r := range c.Residue {
-			if !strings.HasPrefix(r, "socket-fds:") {
-				c.Oracle = append(c.Oracle, "C12:error-path-leaves-"+strings.SplitN(r, ":", 2)[0])
+			if sig := c12ResidueSig(r, false); sig != "" {
+				c.Oracle = append(c.Oracle, sig)
 			}
 		}
 	}
@@ -1051,7 +1066,9 @@ func c12RunCensus(id int, client bool) c12Case {
 			}
 		}
 		for _, r := range c.Residue {
-			c.Oracle = append(c.Oracle, "C12:error-path-leaves-"+strings.SplitN(r, ":", 2)[0])
+			if sig := c12ResidueSig(r, !client); sig != "" {
+				c.Oracle = append(c.Oracle, sig)
+			}
 		}
 	}
 	// let the blocked goroutine go (the peer finally closes), so that later scenarios start clean
